@@ -777,7 +777,9 @@ def check_case(c: Contract, fn, args, ns=None, ignore_known=False):
                 for it in items:
                     if not it_ok(c, env, it):
                         return Outcome('fail', {'clause': 'yield-item', 'observed': describe(it)})
-            if c.yield_key is not None:
+            if isinstance(c.yield_key, str):
+                items = [getattr(it, c.yield_key) for it in items]
+            elif c.yield_key is not None:
                 items = [it[c.yield_key] for it in items]
             if len(items) != len(set(items)):
                 return Outcome('fail', {'clause': 'yield-once', 'observed': items})
